@@ -345,7 +345,7 @@ def analyse(sess, outs, strict_lockstep=False):
                     F(i, ["C11", "C02"], "context counts %d bytes, first fragment carried %d" % (npos, k))
                 if nf != op["fid"]:
                     F(i, ["C11"], "context frag id %d, passed %d" % (nf, op["fid"]))
-                if pk.total_len != (2 + wlen + len(pdu)) & 0xFFFF:
+                if pk.total_len != 2 + wlen + len(pdu):      # over the naturals: a sum beyond 65535 must have been refused
                     F(i, P6 + ["C02"] + (["C13"] if exts else []), "total length %s, expected %d (protocol type + label as written + PDU)"
                       % (pk.total_len, 2 + wlen + len(pdu)))
                 tl = (len(pdu) + 2 + wlen) & 0xFFFF
@@ -498,7 +498,10 @@ def analyse(sess, outs, strict_lockstep=False):
             if kind == "decap":
                 sync_trains(i, o, trains, F)
             if ref_mem is not None:
-                resync_ref_mem(o, ref_mem)
+                if o.state == "?":
+                    ref_mem = None      # degraded harness: what decap did to the memory cannot be observed
+                else:
+                    resync_ref_mem(o, ref_mem)
 
     # previews against the encapsulation that follows them
     pair_previews(sess, outs, info, F)
